@@ -29,6 +29,7 @@ REQUIRED_THEOREMS = [
     'table_p2_deg6', 'table_p3_deg3', 'table_p5_deg2', 'table_p7_deg2', 'table_bin_deg6',
     # source tie (PropsGen/C24Src.lean): _is_irreducible / _next_irreducible generated from the current gfpx.py = model
     'is_irreducible_src_eq', 'next_irreducible_src_eq', 'is_irreducible_src_correct',
+    'b_is_irreducible_src_eq', 'b_next_irreducible_src_eq',
 ]
 
 RULE = (
